@@ -184,8 +184,7 @@ def C06ex.outA : SubsetOut :=
 def C06ex.outB : SubsetOut :=
   { descs := [.plain e8, .plain fac, .plain e8], vals := [.int 6, .int 0, .int 1000], links := [] }
 
-open C06ex in
-theorem C06ex.alone : ∀ p ∈ [(bitsA, outA), (bitsB, outB)], decodeSubset tmpl p.1 = .ok (p.2, []) := by
+open C06ex in private theorem C06ex.alone : ∀ p ∈ [(bitsA, outA), (bitsB, outB)], decodeSubset tmpl p.1 = .ok (p.2, []) := by
   intro p hp
   simp only [List.mem_cons, List.not_mem_nil, or_false] at hp
   rcases hp with rfl | rfl <;> decide +kernel
